@@ -28,6 +28,9 @@ VARIANT_OF = {
 def run(ctx, env):
     prog = env.prog("default")
     an = An(prog)
+    ctx.rule("R9.7", "a decoded value that was altered cannot be re-exported as received: no arithmetic, clamping, narrowing, trimming, truncation or sub-slicing between the wire bytes and the stored FieldValue (value path of from_field_type, shared with C04 R4.11; the known lossy codecs of R9.2 / R10.3 are conversions, not alterations, and are listed there)")
+    from . import valuepath as _vp
+    _vp.rule(ctx, prog, an, "R9.7", time_units=False)
     ctx.rule("R9.6", "no silent consumption in the V9 and value decoders: every parser step on a returned remainder chain contributes its decoded value to the result (bytes that are consumed but not stored cannot be re-exported); shared with C02 R2.8")
     from . import consume as _consume
     _consume.rule(ctx, prog, an, "R9.6", lambda b: b.path.startswith(("variable_versions::v9::", "variable_versions::data_number::")), floor=12)
